@@ -26,6 +26,8 @@ public:
   static int run(AsmContext *asm_context, Var &var, bool is_paren);
 
 private:
+  static int run_nested(AsmContext *asm_context, Var &var, bool is_paren);
+
   EvalExpression()  { }
   ~EvalExpression() { }
 
